@@ -54,13 +54,15 @@ def sh(cmd, cwd=None, timeout=None, env=None, check=False, stdin=None):
 
 
 class Lock:
-    def __init__(self, name):
+    """exclusive by default; shared=True lets several readers in (re-checking compiled files) while a `make` excludes them"""
+    def __init__(self, name, shared=False):
         os.makedirs(BUILD, exist_ok=True)
         self.path = os.path.join(BUILD, name + ".lock")
+        self.shared = shared
 
     def __enter__(self):
-        self.f = open(self.path, "w")
-        fcntl.flock(self.f, fcntl.LOCK_EX)
+        self.f = open(self.path, "a")
+        fcntl.flock(self.f, fcntl.LOCK_SH if self.shared else fcntl.LOCK_EX)
         return self
 
     def __exit__(self, *a):
@@ -255,7 +257,7 @@ def coq_properties(prop, timeout=900):
     Returns (ok, theorems:[(name, axioms:[...])], raw output)."""
     src = os.path.join(COQ, "Properties_%s.v" % prop)
     names = re.findall(r"^\s*Print\s+Assumptions\s+([\w.']+)\s*\.", re.sub(r"\(\*.*?\*\)", " ", open(src).read(), flags=re.S), flags=re.M)
-    with Lock("coq"):
+    with Lock("coq", shared=True):   # only Properties_<prop>.vo is rewritten; everything it reads is up to date after the make
         rc, out = sh(["timeout", str(timeout), "coqc", "-Q", ".", "CppUVerif", "Properties_%s.v" % prop], cwd=COQ)
     blocks = []
     cur = None
@@ -494,7 +496,7 @@ def main_check(P, argv):
                            "checks/%s.py generators and canonicalisers" % prop] + ["stdlib axiom: " + x for x in axioms]
     if a.tier == "thorough" and ok_mk and not a.replay and os.environ.get("VERIF_COQCHK", "1") == "1":
         # independent re-check of the compiled theorems and everything they depend on
-        with Lock("coq"):
+        with Lock("coq", shared=True):
             rc, out = sh(["timeout", "1500", "coqchk", "-o", "-silent", "-Q", ".", "CppUVerif", "CppUVerif.Properties_%s" % prop], cwd=COQ)
         cov["coqchk"] = {"exit": rc, "output_tail": out[-3000:]}
         if rc != 0:
